@@ -370,6 +370,19 @@ theorem step_markReenter (P : Prog) (i : Frid) (b : Bool) (s : St W) : Step P i 
   ⟨fun _ _ => rfl, fun _ _ => rfl, fun _ _ => rfl, fun _ _ => rfl,
    fun h => by rw [bad_markReenter, h]; rfl⟩
 
+@[simp] theorem fr_markLeft (b : Bool) (s : St W) (j : Frid) : (markLeft b s).fr j = s.fr j := rfl
+@[simp] theorem fr_noteEnter (f : Fid) (s : St W) (j : Frid) : (noteEnter f s).fr j = s.fr j := rfl
+@[simp] theorem fr_noteExit (f : Fid) (s : St W) (j : Frid) : (noteExit f s).fr j = s.fr j := rfl
+
+theorem step_markLeft (P : Prog) (i : Frid) (b : Bool) (s : St W) : Step P i s (markLeft b s) :=
+  ⟨fun _ _ => rfl, fun _ _ => rfl, fun _ _ => rfl, fun _ _ => rfl, fun h => h⟩
+
+theorem step_noteEnter (P : Prog) (i : Frid) (f : Fid) (s : St W) : Step P i s (noteEnter f s) :=
+  ⟨fun _ _ => rfl, fun _ _ => rfl, fun _ _ => rfl, fun _ _ => rfl, fun h => h⟩
+
+theorem step_noteExit (P : Prog) (i : Frid) (f : Fid) (s : St W) : Step P i s (noteExit f s) :=
+  ⟨fun _ _ => rfl, fun _ _ => rfl, fun _ _ => rfl, fun _ _ => rfl, fun h => h⟩
+
 /-! ### acts -/
 
 theorem setDesire_core (c : Control) (frs : List Frid) (s : St W) (j : Frid) :
@@ -603,8 +616,8 @@ theorem frameEnter_sk {f : Fid} {s s' : St W} (h : frameEnter P sem lo f s = .ok
     SK P (P.frame f).framer (fun _ => False) s s' := by
   unfold frameEnter at h
   have h1 : SK P (P.frame f).framer (fun _ => False) s
-      (runActs sem .enter f (P.frame f).enacts (s.emit (.enter f))) :=
-    SK.trans (b := s.emit (.enter f)) (SK.of_step wf ⟨step_emit P _ _ s, Keep.refl _ _⟩ _)
+      (runActs sem .enter f (P.frame f).enacts (noteEnter f s)) :=
+    SK.trans (b := noteEnter f s) (SK.of_step wf ⟨step_noteEnter P _ f s, Keep.refl _ _⟩ _)
       (SK.of_step wf (runActs_step P sem .enter f _ _ (wf.doneEn f) _) _)
   refine SK.trans h1 ?_
   refine forEach_rel (R := SK P (P.frame f).framer (fun _ => False)) (SK.refl _ _) (fun _ _ _ => SK.trans) _ _ ?_ _ _ h
@@ -803,12 +816,12 @@ theorem frameExit_sk {f : Fid} {s s' : St W} (ho : Owned P s) (h : frameExit P s
     SKO P (P.frame f).framer (fun x => IsSusp P f x) s s' ∧ (∀ x, IsSusp P f x → (s'.fr x).done = true) ∧
     (∀ z, CondKid P (P.frame f).framer z → (s.fr z).done = true → (s'.fr z).done = true) := by
   unfold frameExit at h
-  cases h1 : forEach (deactivateAux P lo) (P.frame f).auxes (s.emit (.exit f)) with
+  cases h1 : forEach (deactivateAux P lo) (P.frame f).auxes (noteExit f s) with
   | error e => simp [h1] at h
   | ok s1 =>
     simp only [h1] at h
     have a1 : SK P (P.frame f).framer (fun _ => False) s s1 := by
-      refine SK.trans (b := s.emit (.exit f)) (SK.of_step wf ⟨step_emit P _ _ s, Keep.refl _ _⟩ _) ?_
+      refine SK.trans (b := noteExit f s) (SK.of_step wf ⟨step_noteExit P _ f s, Keep.refl _ _⟩ _) ?_
       refine forEach_rel (R := SK P (P.frame f).framer (fun _ => False)) (SK.refl _ _)
         (fun _ _ _ => SK.trans) _ _ ?_ _ _ h1
       intro y hy t t' ht
@@ -866,13 +879,18 @@ theorem exitAll_spec {i : Frid} {abort : Bool} {s s' : St W} (ho : Owned P s)
     Mod (Reach P i) s s' ∧ Owned P s' ∧ (s'.bad = false → InvR P i s → InvR P i s') ∧
     (s'.fr i).active = none ∧ (s'.fr i).actives = [] ∧ (abort = false → (s'.fr i).done = true) := by
   unfold exitAll exit at h
-  cases h1 : forEach (frameExit P sem lo) (s.fr i).actives.reverse s with
+  obtain ⟨s0, hs0⟩ : ∃ x, x = markLeft (truncated P i s) s := ⟨_, rfl⟩
+  rw [← hs0] at h
+  have st0 : Step P i s s0 := hs0 ▸ step_markLeft P i _ s
+  have hfr0 : ∀ j, s0.fr j = s.fr j := fun j => by rw [hs0]; rfl
+  have ho0 : Owned P s0 := owned_of_step st0 ⟨by rw [hfr0], by rw [hfr0]⟩ ho
+  cases h1 : forEach (frameExit P sem lo) (s.fr i).actives.reverse s0 with
   | error e => simp [h1] at h
   | ok s1 =>
     simp only [h1, Except.ok.injEq] at h
     have hown : ∀ f, f ∈ (s.fr i).actives.reverse → (P.frame f).framer = i :=
       fun f hf => ho.actives i f (List.mem_reverse.1 hf)
-    have d := exit_sk wf hlo _ hown s s1 ho h1
+    have d := exit_sk wf hlo _ hown s0 s1 ho0 h1
     obtain ⟨s2, hs2⟩ : ∃ x, x = deactivate i s1 := ⟨_, rfl⟩
     have st2 : Step P i s1 s2 := by
       rw [hs2]; unfold deactivate
@@ -891,7 +909,7 @@ theorem exitAll_spec {i : Frid} {abort : Bool} {s s' : St W} (ho : Owned P s)
       · exact hact2
       · simpa using hact2
     have hsub : Sub P i (fun x => ∃ f, f ∈ (s.fr i).actives.reverse ∧ IsSusp P f x) s s' :=
-      d.1.1.trans (st.sub wf _)
+      ((st0.sub wf _).trans d.1.1).trans (st.sub wf _)
     have hown' : Owned P s' := by
       constructor
       · intro j f hf
@@ -915,7 +933,7 @@ theorem exitAll_spec {i : Frid} {abort : Bool} {s s' : St W} (ho : Owned P s)
           refine ⟨hx, ?_⟩
           cases hds : (s.fr x).done with
           | false => rfl
-          | true => rw [d.2.2 x hck hds] at hd; cases hd
+          | true => rw [d.2.2 x hck (by rw [hfr0]; exact hds)] at hd; cases hd
         have hcut := hinv.1.cut m x hm hrun
         have hmem : m ∈ (s.fr i).actives.reverse := by
           rw [List.mem_reverse, hcut]; exact head_mem wf m
@@ -1075,12 +1093,14 @@ theorem transit_pstep {i : Frid} {f : Fid} (hf : (P.frame f).framer = i) {needs 
           intro e
           unfold checkEnter at hc
           simp [e] at hc
-        obtain ⟨sa, hsa⟩ : ∃ x, x = runActs sem .transit f tracts s := ⟨_, rfl⟩
+        obtain ⟨sa, hsa⟩ : ∃ x, x = runActs sem .transit f tracts (markLeft (truncated P i s) s) := ⟨_, rfl⟩
         rw [← hsa] at h
         have tr := wf.donePre f _ hp
         simp only [PreactDoneOnly, hf] at tr
-        have sta := runActs_step P sem .transit f i tracts tr s
-        rw [← hsa] at sta
+        have sta : Step P i s sa ∧ Keep i s sa := by
+          have r0 := runActs_step P sem .transit f i tracts tr (markLeft (truncated P i s) s)
+          rw [← hsa] at r0
+          exact ⟨(step_markLeft P i _ s).trans r0.1, Keep.trans (Keep.refl _ _) r0.2⟩
         unfold exit at h
         cases hx : forEach (frameExit P sem lo) r.1.reverse sa with
         | error e => simp [hx] at h
@@ -1559,7 +1579,7 @@ theorem nextOps_spec : LoSpec P (nextOps P sem lo) := by
   · intro y s s' h
     -- `exitAll(abort = False)` sets `.done`
     simp only [nextOps, exitAll] at h
-    cases h1 : exit P sem lo (s.fr y).actives s with
+    cases h1 : exit P sem lo (s.fr y).actives (markLeft (truncated P y s) s) with
     | error e => simp [h1] at h
     | ok s1 =>
       simp only [h1, Except.ok.injEq, Bool.false_eq_true, if_false] at h
